@@ -5,6 +5,7 @@ import (
 	"go/constant"
 	"go/token"
 	"go/types"
+	"os"
 	"sort"
 	"strings"
 
@@ -379,6 +380,14 @@ func (f *FA) computeLoadClasses() {
 					continue
 				}
 				key = fmt.Sprintf("%s[%s]", f.canon(a.X), f.canon(a.Index))
+			case *ssa.Parameter:
+				// *p read several times (a container passed by pointer): the same value as long as nothing is
+				// stored through a pointer of that type in between
+				if _, isPtr := a.Type().Underlying().(*types.Pointer); !isPtr {
+					continue
+				}
+				key = "*" + f.canon(a)
+				ek = addrEffect(a)
 			default:
 				continue
 			}
@@ -509,6 +518,14 @@ func (f *FA) LFOf(v ssa.Value) LF {
 	return r
 }
 
+// phiAtom: the atom that stands for the integer φ ph (-1 if its linear form is not a single atom).
+func (f *FA) phiAtom(ph *ssa.Phi) int {
+	if id, ok := singleAtom(f.LFOf(ph)); ok {
+		return id
+	}
+	return -1
+}
+
 // atomDef returns a value whose linear form is exactly atom a, if one was seen.
 func (f *FA) atomDef(a int) ssa.Value { return f.atoms[a].def }
 
@@ -533,6 +550,9 @@ func (f *FA) fit(l LF, t types.Type, key, name string) LF {
 	okHi := bhi <= hi && bhi < INF
 	if okLo && okHi {
 		return l
+	}
+	if os.Getenv("IKELINT_DEBUG_PHI") != "" {
+		fmt.Fprintf(os.Stderr, "fit %s in %s: %s bounds [%d,%d] type [%d,%d]\n", name, f.Fn.Name(), f.Show(l), blo, bhi, lo, hi)
 	}
 	// partially bounded: keep what the type guarantees; remember what the atom is when nothing wraps, so that a
 	// proof under guards that bound the operands (attr.length == 1 before 4*attr.length in uint8) can use it
@@ -760,6 +780,13 @@ func (f *FA) lf0(v ssa.Value) LF {
 				return f.atomLF("v:"+v.Name(), f.vname(v), 0, f.maxLen)
 			}
 		}
+		if isInt && x.Call.IsInvoke() && x.Call.Method.Name() == "Size" && len(x.Call.Args) == 0 {
+			// h.Size() of a hash.Hash: one value per object (the atom callLen uses for what Sum appends)
+			if cs := f.C.CalleesAt(x); len(cs.Mod) == 0 && len(cs.External) == 1 && cs.External[0] == "iface:hash.Hash.Size" {
+				lo, hi := f.C.moduleHashSizeRange()
+				return f.atomLF("hashsize:"+f.canon(x.Call.Value), "Size("+f.canon(x.Call.Value)+")", lo, hi)
+			}
+		}
 		if f.CallRange != nil && isInt {
 			if lo, hi, ok := f.CallRange(x); ok {
 				return f.atomLF("v:"+v.Name(), f.vname(v), lo, hi)
@@ -883,6 +910,7 @@ func (f *FA) phiLF(x *ssa.Phi, tlo, thi int64) LF {
 	okUp, okDown := true, true
 	var steps []int64
 	var backs []int // edge indices of back edges
+	var varInits []int
 	// whatever is evaluated before the φ has its atom sees a placeholder for it; forget those results afterwards
 	seenLF := map[ssa.Value]bool{}
 	for k := range f.lfMemo {
@@ -976,6 +1004,14 @@ func (f *FA) phiLF(x *ssa.Phi, tlo, thi int64) LF {
 				continue
 			}
 		}
+		// an entry edge that is not a constant (an inner cursor that starts where the enclosing record's fixed
+		// part ends): its value where the loop is entered is the first value
+		if !x.Block().Dominates(x.Block().Preds[i]) {
+			if _, _, isInt := f.typeRange(e.Type()); isInt {
+				varInits = append(varInits, i)
+				continue
+			}
+		}
 		okUp, okDown = false, false
 	}
 	if len(steps) == 0 {
@@ -1030,6 +1066,36 @@ func (f *FA) phiLF(x *ssa.Phi, tlo, thi int64) LF {
 		}
 		return f.atomLF(key, x.Name(), tlo, thi)
 	}
+	var varInitLF *LF
+	if len(varInits) > 0 {
+		// one variable first value, counting up only; its interval where the loop is entered, and the proof that
+		// it is no larger than any length
+		if len(inits) != 0 || !okUp {
+			return f.atomLF(key, x.Name(), tlo, thi)
+		}
+		// (several ways into the loop may carry the same value)
+		l := f.LFOf(x.Edges[varInits[0]])
+		minLo := int64(INF)
+		for _, i := range varInits {
+			if x.Edges[i] != x.Edges[varInits[0]] {
+				return f.atomLF(key, x.Name(), tlo, thi)
+			}
+			pred := x.Block().Preds[i]
+			facts := f.FactsAt(pred)
+			blo, _ := f.bounds(l, f.refine(facts))
+			if blo <= -INF {
+				return f.atomLF(key, x.Name(), tlo, thi)
+			}
+			if ok, _ := f.Prove(konst(f.maxLen).add(l, -1), facts); !ok {
+				return f.atomLF(key, x.Name(), tlo, thi)
+			}
+			if blo < minLo {
+				minLo = blo
+			}
+		}
+		inits = append(inits, minLo)
+		varInitLF = &l
+	}
 	if len(inits) == 0 || (!okUp && !okDown) {
 		return f.atomLF(key, x.Name(), tlo, thi)
 	}
@@ -1063,6 +1129,9 @@ func (f *FA) phiLF(x *ssa.Phi, tlo, thi int64) LF {
 			H = thi
 		}
 		id := f.newAtom(key, x.Name(), lo, H)
+		// an evaluation nested in that of an enclosing φ (whose placeholder made this one undecidable) may have
+		// registered the atom with the type's range: this evaluation is the one that counts
+		f.atoms[id].lo, f.atoms[id].hi = lo, H
 		purge()
 		purge = nil
 		beforeLF := map[ssa.Value]bool{}
@@ -1075,6 +1144,10 @@ func (f *FA) phiLF(x *ssa.Phi, tlo, thi int64) LF {
 		}
 		f.lfMemo[x] = LF{T: map[int]int64{id: 1}}
 		bounded := maxStep <= 1<<20 && mx <= f.maxLen
+		if varInitLF != nil {
+			// the first value itself is below maxLen (proved above); counting up from it, the φ never falls below it
+			f.Inject(x.Block(), Fact{L: LF{T: map[int]int64{id: 1}}.add(*varInitLF, -1)})
+		}
 		if bounded {
 			for _, bi := range backs {
 				pred := x.Block().Preds[bi]
@@ -1083,6 +1156,9 @@ func (f *FA) phiLF(x *ssa.Phi, tlo, thi int64) LF {
 					break
 				}
 			}
+		}
+		if os.Getenv("IKELINT_DEBUG_PHI") != "" {
+			fmt.Fprintf(os.Stderr, "phi %s in %s: inits %v steps %v varInit %v bounded %v\n", x.Name(), f.Fn.Name(), inits, steps, varInitLF != nil, bounded)
 		}
 		if !bounded {
 			// the hypothesis is not inductive: widen, and forget everything derived under it
@@ -1170,6 +1246,10 @@ func (f *FA) boundedAbove(id int, b *ssa.BasicBlock) bool {
 		if rhi <= f.maxLen {
 			return true
 		}
+	}
+	// relationally: the bound is itself bounded by another guard (pos < end, end <= len(b))
+	if ok, _ := f.Prove(konst(f.maxLen).add(LF{T: map[int]int64{id: 1}}, -1), facts); ok {
+		return true
 	}
 	return false
 }
@@ -1597,6 +1677,24 @@ func (f *FA) edgeFacts(p, x *ssa.BasicBlock) []Fact {
 	if iff, ok := p.Instrs[len(p.Instrs)-1].(*ssa.If); ok && p.Succs[0] != p.Succs[1] {
 		f.condFacts(iff.Cond, p.Succs[0] == x, &out)
 	}
+	// the integer φ-nodes of x take the value of this edge
+	for i, q := range x.Preds {
+		if q != p {
+			continue
+		}
+		for _, ins := range x.Instrs {
+			ph, ok := ins.(*ssa.Phi)
+			if !ok {
+				break
+			}
+			if _, _, isInt := f.typeRange(ph.Type()); !isInt {
+				continue
+			}
+			a, b := f.LFOf(ph), f.LFOf(ph.Edges[i])
+			out = append(out, Fact{L: a.add(b, -1)}, Fact{L: b.add(a, -1)})
+		}
+		break
+	}
 	stop := x.Idom()
 	for y := p; y != nil && y != stop; y = y.Idom() {
 		if fs, ok := f.extra[y]; ok {
@@ -1652,6 +1750,23 @@ func (f *FA) DisjAt(b *ssa.BasicBlock) [][][]Fact {
 		}
 	}
 	return out
+}
+
+// EqualAt: a == b at block blk, from the dominating facts or by a case distinction over a dominating merge.
+func (f *FA) EqualAt(a, b LF, blk *ssa.BasicBlock) bool {
+	if a.key() == b.key() {
+		return true
+	}
+	facts := f.FactsAt(blk)
+	for _, g := range []LF{a.add(b, -1), b.add(a, -1)} {
+		if ok, _ := f.Prove(g, facts); ok {
+			continue
+		}
+		if ok, _ := f.ProveCases(g, facts, blk); !ok {
+			return false
+		}
+	}
+	return true
 }
 
 // ProveCases proves g by a case distinction over one of the disjunctions that hold at b: in every case the goal
@@ -1716,7 +1831,7 @@ func (f *FA) Prove(g LF, facts []Fact) (bool, string) {
 			}
 		}
 	}
-	if len(fs) <= 12 {
+	if len(fs) <= 18 {
 		for i := range fs {
 			for j := i + 1; j < len(fs); j++ {
 				for k := j + 1; k < len(fs); k++ {
